@@ -80,7 +80,9 @@ StoreIdx(es, x) ==
     ELSE LET c == {i \in 1..Len(es) : H(es[i].in) = H(x) /\ StoredIn(es[i]) = x}
          IN IF c = {} THEN 0 ELSE Min(c)
 
-NewEntry(x, ref) == [in |-> x, ref |-> ref, hasOut |-> FALSE, osrc |-> P0, jl |-> 0, jsrc |-> P0]
+\* (the caller's array an entry was built from only matters when inputs are kept by reference)
+NewEntry(x, ref) == [in |-> x, ref |-> IF RefIn THEN ref ELSE NoCell, hasOut |-> FALSE, osrc |-> P0,
+                     jl |-> 0, jsrc |-> P0]
 \* cache_outputs(x, G(x))
 WithOutputs(es, x, ref, i) ==
     IF i # 0 THEN (IF es[i].hasOut THEN es ELSE [es EXCEPT ![i].hasOut = TRUE, ![i].osrc = x])
